@@ -913,7 +913,7 @@ def run_shard(shard, ctx):
                 for i, vc in enumerate(shard['vcs']):
                     run_case({'fam': 'T', 'shape': shape, 'mask': mask, 'ncf': shard['ncf'], 'vc': vc,
                               'types': shard['types'], 'vals': ['B', shard['fill']], 'vfill': i % 2}, ctx)
-                if shape[0] == 1 and 'ranksum' not in shard['types']:
+                if shape[0] == 1 and 'ranksum' not in shard['types'] and 'a' in shard['vcs']:
                     run_case({'fam': 'T', 'shape': shape, 'mask': mask, 'ncf': shard['ncf'], 'vc': 'a',
                               'cv': 'crossvalidation', 'types': ['t-test'], 'vals': ['B', shard['fill']]}, ctx)
         else:
